@@ -152,6 +152,26 @@ ENCODERS = ("PVL", "ODL", "PDS3", "ISIS")
 
 
 def make_encoder(name, **cfg):
+    """`_wiring` is not an option of the library but of how the caller builds the encoder:
+    with only a decoder, only a grammar, or both built separately - always the encoder's own
+    default classes, so the result must be the encoder the documentation describes."""
+    cfg = dict(cfg)
+    wiring = cfg.pop("_wiring", None)
+    G = {"PVL": PVLGrammar, "ODL": ODLGrammar, "PDS3": PDSGrammar, "ISIS": ISISGrammar}[name]
+    D = {"PVL": PVLDecoder, "ODL": ODLDecoder, "PDS3": PDSLabelDecoder, "ISIS": PVLDecoder}[name]
+    if wiring == "decoder-only":
+        cfg["decoder"] = D(grammar=G())
+    elif wiring == "decoder-with-its-default-grammar":
+        cfg["decoder"] = D()             # for ISIS: a PVLDecoder over the plain PVL grammar
+    elif wiring == "grammar-only":
+        cfg["grammar"] = G()
+    elif wiring == "both-separate":
+        cfg["grammar"] = G()
+        cfg["decoder"] = D(grammar=G())
+    elif wiring == "both-shared":
+        g = G()
+        cfg["grammar"] = g
+        cfg["decoder"] = D(grammar=g)
     return {"PVL": PVLEncoder, "ODL": ODLEncoder, "PDS3": PDSLabelEncoder,
             "ISIS": ISISEncoder}[name](**cfg)
 
